@@ -62,6 +62,28 @@ def corpus(tier):
         g = progen.Gen(r)
         src.append(('eval:%d' % i, g.iexpr(['len', 'abs']), 'eval'))
         src.append(('single:%d' % i, '%s = %s\n' % (g.uid('s'), g.iexpr([])), 'single'))
+    # full-grammar sources from the C06 generator (every expression and statement form of the 3.4 grammar, all target forms) in all three modes:
+    # the compiler rewrites parts of the tree while compiling (augmented assignment, starred targets), which must never carry over
+    import c06
+    for i in range(n):
+        g6 = c06.G(r)
+        src.append(('g6x:%d' % i, g6.module(2, 2, r.randrange(1, 4))[0], 'exec'))
+    for i in range(n):
+        g6 = c06.G(r)
+        e = g6.comprehension(2) if i % 3 == 0 else g6.expr(3)
+        src.append(('g6e:%d' % i, e.t if e.t.startswith(('(', '[', '{')) else '(' + e.t + ')', 'eval'))
+    for i in range(n // 4):
+        g6 = c06.G(r)
+        st = g6.simple(2)
+        src.append(('g6s:%d' % i, st[0][0] + '\n', 'single'))
+    for i, t in enumerate(['[b for a, *b in xs]', '[a for *a, b in xs]', '{a: b for (a, *b) in xs}', '(c for [a, *b, c] in xs)', '{b for a, (*b, c) in xs}', '[x for x in xs if x for y, *z in x]',
+                           'lambda *a, b=1, **k: [c for c, *d in a]', '[[e for e, *f in d] for c, *d in xs]', 'f(*a, **k)', 'x[1:2, ::3]', '(a, *b)', 'not a < b < c', 'a if b else c']):
+        src.append(('evalform:%d' % i, t, 'eval'))
+        src.append(('execform:%d' % i, 'r = ' + t + '\nfor q, *w in r: q += 1\n', 'exec'))
+        src.append(('singleform:%d' % i, t + '\n', 'single'))
+    for i, t in enumerate(['a += 1\n', 'a.b += 1\n', 'a[i] += 1\n', 'a[i:j] += x\n', 'a.b.c[d].e **= 2\n', 'a, *b = c\n', '[a, *b], c = d\n', 'for a, *b in c: a += b\n', 'with x as (a, *b): pass\n']):
+        src.append(('augform:%d' % i, t, 'exec'))
+        src.append(('augsingle:%d' % i, t, 'single'))
     # modules whose first statement is a docstring / that are empty or comment-only (code emitted before the first statement)
     for i in range(n // 10 + 20):
         body = progen.program(r, maxdepth=2, nstmts=2)[len(progen.PRELUDE):]
